@@ -94,11 +94,12 @@ def cramerv_measure(
         _, measurement = chi2_measure(x, y, **kwargs)
         chi2_statistic = measurement.get("chi2_statistic")
 
-    # number of observations
-    n_obs = (notna(x) & notna(y)).sum()
+    # number of observations (rows where both x and y are known, as in the crosstab)
+    known = notna(x) & notna(y)
+    n_obs = known.sum()
 
-    # number of values taken by the features
-    n_mod_x, n_mod_y = x.nunique(), y.nunique()
+    # number of values taken by the features (among those observations)
+    n_mod_x, n_mod_y = x[known].nunique(), y[known].nunique()
     min_n_mod = min(n_mod_x, n_mod_y)
 
     # Cramér's V
@@ -144,11 +145,12 @@ def tschuprowt_measure(
         _, measurement = chi2_measure(x, y, **kwargs)
         chi2_statistic = measurement.get("chi2_statistic")
 
-    # number of observations
-    n_obs = (notna(x) & notna(y)).sum()
+    # number of observations (rows where both x and y are known, as in the crosstab)
+    known = notna(x) & notna(y)
+    n_obs = known.sum()
 
-    # number of values taken by the features
-    n_mod_x, n_mod_y = x.nunique(), y.nunique()
+    # number of values taken by the features (among those observations)
+    n_mod_x, n_mod_y = x[known].nunique(), y[known].nunique()
 
     # Tschuprow's T
     dof_mods = sqrt((n_mod_x - 1) * (n_mod_y - 1))
